@@ -12,7 +12,8 @@ INVARIANT CommitIdsDistinct
 PROPERTY Rollback
 PROPERTY CountersMonotone
 """
-STEP_TEXT = {'PUSHNAT': 'PUSH nat 7', 'PUSHOPT': 'PUSH (option nat) (Some 1)', 'PUSHNONE': 'PUSH (option nat) None', 'PUSHSTR': 'PUSH string "k"', 'EMPTYBM': 'EMPTY_BIG_MAP string nat', 'UPDATE': 'UPDATE',
+STEP_TEXT = {'PUSHNAT': 'PUSH (or nat string) (Left 7)',      # the plain value of the model's sessions is a variant value (its absent branch is a sentinel object)
+              'PUSHOPT': 'PUSH (option nat) (Some 1)', 'PUSHNONE': 'PUSH (option nat) None', 'PUSHSTR': 'PUSH string "k"', 'EMPTYBM': 'EMPTY_BIG_MAP string nat', 'UPDATE': 'UPDATE',
              'BEGIN': 'BEGIN Unit {}', 'CDR': 'CDR', 'NILOP': 'NIL operation', 'PAIR': 'PAIR', 'COMMIT': 'COMMIT', 'DROP': 'DROP', 'DROPALL': 'DROP_ALL',
              'STORAGE': 'storage (big_map string nat)', 'PARAMBM': 'parameter (big_map string nat)', 'BEGINPTR': 'BEGIN 5 {}', 'SAPLING': 'SAPLING_EMPTY_STATE 8', 'LISTBM': 'EMPTY_BIG_MAP string nat ; NIL (big_map string nat) ; SWAP ; CONS'}
 STEPS = {'push': ['PUSHNAT'], 'newbm': ['EMPTYBM'], 'newbm2': ['EMPTYBM', 'PUSHOPT', 'PUSHSTR', 'UPDATE'], 'upd': ['PUSHOPT', 'PUSHSTR', 'UPDATE'], 'del': ['PUSHNONE', 'PUSHSTR', 'UPDATE'], 'begin': ['BEGIN'],
@@ -56,7 +57,7 @@ def item_abs(item):
         if b.prim == 'big_map' and a.prim == 'list':
             return ('res', b.ptr)
         return ('pair',)
-    return {'nat': ('nat',), 'option': ('opt',), 'string': ('str',), 'list': ('ops',), 'sapling_state': ('sap',)}.get(prim, (prim,))
+    return {'nat': ('nat',), 'or': ('nat',), 'option': ('opt',), 'string': ('str',), 'list': ('ops',), 'sapling_state': ('sap',)}.get(prim, (prim,))
 
 
 def bm_contents(item):
@@ -87,9 +88,21 @@ def unbound(interp):
     return tuple(out)
 
 
+def self_equal(interp):
+    """every plain value on the stack equals the value read back from its own Micheline rendering (a value that survived a rollback is still that value)"""
+    out = []
+    for x in interp.stack.items:
+        if getattr(x, 'prim', None) in ('or', 'option', 'nat', 'string', 'pair') and not bm_contents(x):
+            try:
+                out.append(bool(type(x).from_micheline_value(x.to_micheline_value()) == x))
+            except Exception as e:   # noqa
+                out.append(type(e).__name__)
+    return tuple(out)
+
+
 def observe(interp):
     ctx = interp.context
-    return {'unbound': unbound(interp), 'sapling': getattr(ctx, 'alloc_sapling_index', None), 'bm_contents': tuple(bm_contents(x) for x in interp.stack.items), 'stack': tuple(item_abs(x) for x in interp.stack.items), 'protected': getattr(interp.stack, 'protected', 0), 'tmp': ctx.tmp_big_map_index, 'alloc': ctx.alloc_big_map_index,
+    return {'selfeq': self_equal(interp), 'unbound': unbound(interp), 'sapling': getattr(ctx, 'alloc_sapling_index', None), 'bm_contents': tuple(bm_contents(x) for x in interp.stack.items), 'stack': tuple(item_abs(x) for x in interp.stack.items), 'protected': getattr(interp.stack, 'protected', 0), 'tmp': ctx.tmp_big_map_index, 'alloc': ctx.alloc_big_map_index,
             'orig': ctx.origination_index, 'big_maps': dict(ctx.big_maps)}
 
 
@@ -144,7 +157,7 @@ def compare(ctx, st):
     # (2) after every surviving cell the session with failing cells equals the session without them
     surv = [o for (c, fp), o in zip(hist, with_f) if fp == -1]
     for k, (a, b) in enumerate(zip(surv, without)):
-        for field in ('stack', 'protected', 'bm_contents', 'unbound', 'sapling', 'tmp', 'alloc', 'orig', 'big_maps', 'commit'):
+        for field in ('stack', 'protected', 'bm_contents', 'unbound', 'selfeq', 'sapling', 'tmp', 'alloc', 'orig', 'big_maps', 'commit'):
             if a[field] != b[field]:
                 ctx.mismatch('C22:differs-from-failure-free-session:%s' % field,
                              '%s: after surviving cell #%d, %s = %r with the failing cells, %r without them' % (desc, k + 1, field, a[field], b[field]), case)
@@ -156,7 +169,7 @@ def compare(ctx, st):
     prev = None
     for (c, fp), o in zip(hist, with_f):
         if fp != -1 and prev is not None:
-            for field in ('stack', 'protected', 'bm_contents', 'unbound', 'sapling', 'tmp', 'alloc', 'orig', 'big_maps'):
+            for field in ('stack', 'protected', 'bm_contents', 'unbound', 'selfeq', 'sapling', 'tmp', 'alloc', 'orig', 'big_maps'):
                 if o[field] != prev[field]:
                     ctx.mismatch('C22:failing-cell-changed:%s' % field, '%s: failing cell %r changed %s from %r to %r' % (desc, cell_text(c, fp), field, prev[field], o[field]), case)
                     ok = False
